@@ -592,3 +592,176 @@ def c03_tables(ctx, res):
                f"compound switch handles {sorted(got)}; expected "
                f"{sorted(want)} (difference {sorted(got ^ want)})")
     res.floor(22)
+
+
+# ---------------------------------------------------------------------------
+# C14.state-roundtrip: CTrait.__getstate__ / __setstate__ agree item by item
+
+def _const_eval(n):
+    n = strip(n)
+    if n is None:
+        return None
+    v = int_value(n)
+    if v is not None:
+        return v
+    if n.kind == "BinaryOperator" and n.op in ("|", "&", "+", "<<"):
+        a, b = _const_eval(n.ch[0]), _const_eval(n.ch[1])
+        if a is None or b is None:
+            return None
+        return {"|": a | b, "&": a & b, "+": a + b, "<<": a << b}[n.op]
+    if n.kind == "UnaryOperator" and n.op == "~":
+        a = _const_eval(n.ch[0])
+        return None if a is None else (~a) & 0xFFFFFFFF
+    return None
+
+
+def _trait_field(n):
+    """'F' when ``n`` is ``trait-><F>`` (through casts), else None"""
+    n = strip(n)
+    if n is not None and n.kind == "MemberExpr" and n.arrow \
+            and "trait_object" in (strip(n.ch[0]).type or ""):
+        return n.name
+    return None
+
+
+FMT_OF = {"idx": "i", "obj": "O", "int": "i", "uint": "Ik", "none": "O"}
+
+
+@rule("C14.state-roundtrip", ["C14"],
+      "CTrait.__getstate__ and __setstate__ agree item by item: the field "
+      "(and function table) item i is written from is the field item i is "
+      "restored into, with a matching format, and restored scalars are not "
+      "altered afterwards")
+def state_roundtrip(ctx, res):
+    facts = get_cfacts(ctx)
+    gs = facts.func("_trait_getstate")
+    ss = facts.func("_trait_setstate")
+    # ---- writer -------------------------------------------------------------
+    written = {}
+    for c in gs.walk():
+        if c.kind == "CallExpr" and callee(c) == "PyTuple_SET_ITEM":
+            i = int_value(c.ch[2])
+            v = strip(c.ch[3])
+            desc = None
+            if v.kind == "CallExpr":
+                cal = callee(v)
+                a = strip(v.ch[1]) if len(v.ch) > 1 else None
+                if cal == "get_value":
+                    f = _trait_field(a)
+                    desc = ("obj", f) if f else (
+                        ("none", None) if is_null(a) else None)
+                elif cal in ("PyLong_FromLong", "PyLong_FromUnsignedLong"):
+                    if a is not None and a.kind == "CallExpr" \
+                            and callee(a) == "func_index":
+                        f = _trait_field(a.ch[1])
+                        t = strip(a.ch[2])
+                        desc = ("idx", f, t.ref if t.kind == "DeclRefExpr"
+                                else "?")
+                    else:
+                        f = _trait_field(a)
+                        if f:
+                            desc = ("uint" if "Unsigned" in cal else "int", f)
+            if i is None or desc is None:
+                raise AnalysisError(
+                    f"_trait_getstate: item `{cnorm(c)[:80]}` not recognised")
+            written[i] = (desc, facts.loc(c))
+    n_items = len(written)
+    if n_items < 10 or sorted(written) != list(range(n_items)):
+        raise AnalysisError(f"_trait_getstate: items {sorted(written)}")
+    # ---- reader -------------------------------------------------------------
+    parse = [c for c in ss.walk() if c.kind == "CallExpr"
+             and callee(c) == "PyArg_ParseTuple"]
+    if len(parse) != 1:
+        raise AnalysisError("_trait_setstate: PyArg_ParseTuple not found")
+    parse = parse[0]
+    fmt = strip(parse.ch[2])
+    if fmt.kind != "StringLiteral":
+        raise AnalysisError("_trait_setstate: format is not a literal")
+    chars = [ch for ch in str(fmt.value).strip('"') if ch.isalpha()]
+    dests = parse.ch[3:]
+    res.instance("_trait_setstate:format", facts.loc(parse),
+                 format="".join(chars), items=n_items)
+    res.oblige(len(chars) == n_items == len(dests),
+               "_trait_setstate:arity", facts.loc(parse),
+               f"__getstate__ writes {n_items} items, __setstate__ parses "
+               f"{len(chars)} into {len(dests)} destinations")
+    # stores `trait->F = table[local]`
+    via_local = {}
+    for x in ss.walk():
+        if x.kind == "BinaryOperator" and x.op == "=":
+            f = _trait_field(x.ch[0])
+            r = strip(x.ch[1])
+            if f and r.kind == "ArraySubscriptExpr":
+                t = strip(r.ch[0])
+                ix = strip(r.ch[1])
+                if t.kind == "DeclRefExpr" and ix.kind == "DeclRefExpr":
+                    via_local[ix.ref] = (f, t.ref)
+    for i, (ch, d) in enumerate(zip(chars, dests)):
+        if i not in written:
+            break
+        desc, wloc = written[i]
+        d = strip(d)
+        key = f"state-item:{i}"
+        res.instance(key, wloc, written=list(desc))
+        target = None
+        if d.kind == "UnaryOperator" and d.op == "&":
+            inner = strip(d.ch[0])
+            f = _trait_field(inner)
+            if f:
+                target = ("field", f)
+            elif inner.kind == "DeclRefExpr":
+                target = ("local", inner.ref)
+        if target is None:
+            raise AnalysisError(f"_trait_setstate: destination {i} "
+                                f"`{cnorm(d)}` not recognised")
+        res.oblige(ch in FMT_OF[desc[0]], key + ":format", facts.loc(parse),
+                   f"item {i} is written as {desc[0]} "
+                   f"({desc[1] or 'None'}) but parsed with format "
+                   f"'{ch}'")
+        if desc[0] == "idx":
+            got = via_local.get(target[1]) if target[0] == "local" else None
+            res.oblige(got == (desc[1], desc[2]), key + ":table",
+                       facts.loc(parse),
+                       f"item {i} is the index of trait->{desc[1]} in "
+                       f"{desc[2]} but is restored as "
+                       f"{'trait->%s = %s[...]' % got if got else 'nothing'}")
+        elif desc[0] == "none":
+            res.oblige(target[0] == "local", key + ":ignored",
+                       facts.loc(parse),
+                       f"item {i} (always None) is restored into "
+                       f"trait->{target[1]}")
+        else:
+            res.oblige(target == ("field", desc[1]), key + ":field",
+                       facts.loc(parse),
+                       f"item {i} is written from trait->{desc[1]} but "
+                       f"restored into {target[0]} `{target[1]}`")
+    # ---- restored scalars are not altered -----------------------------------
+    all_bits = 0
+    import re as _re
+    for name, body in facts.macros.items():
+        # the CTrait flag block: TRAIT_* macros written as unsigned hex masks
+        if name.startswith("TRAIT_") and _re.fullmatch(
+                r"\(?0[xX][0-9a-fA-F]+[uU]\)?", body.strip()):
+            all_bits |= facts.macro_int(name)
+    if bin(all_bits).count("1") < 5:
+        raise AnalysisError(f"CTrait flag macros not found ({all_bits:#x})")
+    scalars = {d[0][1] for d in written.values() if d[0][0] in ("int", "uint")}
+    for x in ss.walk():
+        if x.kind in ("BinaryOperator", "CompoundAssignOperator") \
+                and x.op.endswith("=") and x.op not in ("==", "!=", "<=", ">="):
+            f = _trait_field(x.ch[0])
+            if f not in scalars:
+                continue
+            key = f"_trait_setstate:alters:{f}"
+            ok = False
+            if x.op == "&=":
+                m = _const_eval(x.ch[1])
+                ok = m is not None and (m & all_bits) == all_bits
+            res.oblige(ok, key, facts.loc(x),
+                       f"`{cnorm(x)[:80]}` changes trait->{f} after it was "
+                       f"restored from the state: defined bits "
+                       f"{all_bits:#x} do not all survive a pickle/copy "
+                       f"round trip of the trait definition")
+    res.instance("_trait_setstate:scalars", facts.loc(ss),
+                 fields=sorted(scalars), flag_bits=hex(all_bits))
+    res.floor(n_items + 2)
